@@ -55,7 +55,7 @@ def _gen_case(rng, strategy):
         "split": split,
         "flat": flat,
         "strategy": strategy,
-        "values_as": rng.choice(["list", "list", "tuple", "range?", "ndarray?"]),
+        "values_as": rng.choice(["list", "list", "tuple", "range?", "ndarray?", "ndarray?", "dictkeys", "generator", "map", "dictvalues"]),
     }
 
 
@@ -81,6 +81,8 @@ def cases(ctx):
         vals = c["combos"][j][1]
         vals.insert(rng.randrange(len(vals) + 1), rng.choice(vals))
         c["expect"] = "duplicate"
+        if c.get("values_as") in ("dictkeys",):
+            c["values_as"] = "generator"        # (dict keys cannot hold a duplicate)
         yield c
     # values that are equal but of different types (1 / 1.0 / True, 0 / 0.0 / False) index the SAME slot: the grid must
     # either be refused before anything runs, or (if accepted) still place every result correctly
@@ -139,6 +141,15 @@ def _values_as(vals, how):
     if how == "ndarray?" and all(isinstance(v, (int, float)) and not isinstance(v, bool) for v in vals) \
             and len({type(v) for v in vals}) == 1:
         return np.array(vals)
+    # ordered containers that are not sequences: the order given is the order of the axis
+    if how == "dictkeys":
+        return dict.fromkeys(vals).keys()
+    if how == "dictvalues":
+        return {i: v for i, v in enumerate(vals)}.values()
+    if how == "generator":
+        return (v for v in list(vals))
+    if how == "map":
+        return map(lambda v: v, list(vals))
     return list(vals)
 
 
